@@ -116,7 +116,7 @@ static void r_free(const Args &a) {
     int id = (int)a.num("obj"); Obj &o = obj_get(id, "prng");
     ascon_random_free((ascon_random_state_t *)o.mem);
     Ev ev("prng.free"); ev.n("obj", id).n("counter", (long long)((ascon_random_state_t *)o.mem)->counter);
-    if (a.num("dump_raw")) ev.b("raw", (const uint8_t *)o.mem, o.size);
+    if (a.num("dump_raw")) ev.n("wipe", a.num("wipe")).b("raw", (const uint8_t *)o.mem, o.size);
     ev.emit(); obj_del(id);
 }
 void reg_prng() {
